@@ -118,3 +118,271 @@ pub fn udp_client(ip: IpAddr) -> UdpSocket {
     s.set_read_timeout(Some(Duration::from_millis(20))).unwrap();
     s
 }
+
+// ---------------------------------------------------------------------------------------------
+// Child-process trackers: `aqv serve <udp|http|ws> <config json>` calls the crate's `run()`
+
+use std::io::{BufRead, BufReader, Read, Write};
+use std::net::TcpStream;
+use std::process::{Child, Command, Stdio};
+
+pub struct TrackerChild {
+    pub child: Child,
+    pub port: u16,
+    pub kind: &'static str,
+    pub stdout_lines: std::sync::Arc<std::sync::Mutex<Vec<String>>>,
+}
+
+impl Drop for TrackerChild {
+    fn drop(&mut self) {
+        let _ = self.child.kill();
+        let _ = self.child.wait();
+    }
+}
+
+impl TrackerChild {
+    /// `config` is a JSON object merged over the crate's default configuration; the listen address is filled in here.
+    pub fn spawn(kind: &'static str, mut config: serde_json::Value, envs: &[(&str, String)]) -> TrackerChild {
+        let port = free_port();
+        let net = config.as_object_mut().unwrap().entry("network").or_insert(serde_json::json!({}));
+        if kind == "ws" {
+            if net.get("address").is_none() {
+                net["address"] = serde_json::json!(format!("[::]:{}", port));
+                net["only_ipv6"] = serde_json::json!(false);
+            } else {
+                let a = net["address"].as_str().unwrap().replace("PORT", &port.to_string());
+                net["address"] = serde_json::json!(a);
+            }
+        } else {
+            for k in ["address_ipv4", "address_ipv6"] {
+                let default = if k == "address_ipv4" { format!("0.0.0.0:{}", port) } else { format!("[::]:{}", port) };
+                let a = net.get(k).and_then(|a| a.as_str()).map(|a| a.replace("PORT", &port.to_string())).unwrap_or(default);
+                net[k] = serde_json::json!(a);
+            }
+        }
+        let exe = std::env::current_exe().unwrap();
+        let mut cmd = Command::new(exe);
+        cmd.arg("serve").arg(kind).arg(config.to_string()).stdout(Stdio::piped()).stderr(Stdio::null()).stdin(Stdio::null());
+        for (k, v) in envs {
+            cmd.env(k, v);
+        }
+        let mut child = cmd.spawn().unwrap_or_else(|e| machinery_failure(&format!("cannot spawn tracker child: {}", e)));
+        let out = child.stdout.take().unwrap();
+        let lines = std::sync::Arc::new(std::sync::Mutex::new(Vec::new()));
+        let l2 = lines.clone();
+        std::thread::spawn(move || {
+            for l in BufReader::new(out).lines().map_while(Result::ok) {
+                l2.lock().unwrap().push(l);
+            }
+        });
+        TrackerChild { child, port, kind, stdout_lines: lines }
+    }
+
+    pub fn exited(&mut self) -> Option<i32> {
+        match self.child.try_wait() {
+            Ok(Some(s)) => Some(s.code().unwrap_or(-1)),
+            _ => None,
+        }
+    }
+
+    pub fn line_with(&self, pat: &str) -> Option<String> {
+        self.stdout_lines.lock().unwrap().iter().find(|l| l.contains(pat)).cloned()
+    }
+
+    /// Wait until the tracker accepts TCP connections (http / ws) or answers a UDP connect; false if it exited first
+    pub fn wait_ready(&mut self, secs: u64) -> bool {
+        let t0 = Instant::now();
+        while t0.elapsed() < Duration::from_secs(secs) {
+            if self.exited().is_some() {
+                return false;
+            }
+            if self.kind == "udp" {
+                if let Ok(c) = UdpSocket::bind("127.0.0.1:0").or_else(|_| UdpSocket::bind("[::1]:0")) {
+                    c.set_read_timeout(Some(Duration::from_millis(100))).unwrap();
+                    let mut b = Vec::new();
+                    b.extend_from_slice(&0x0417_2710_1980i64.to_be_bytes());
+                    b.extend_from_slice(&0i32.to_be_bytes());
+                    b.extend_from_slice(&77i32.to_be_bytes());
+                    for dst in [SocketAddr::new(IpAddr::V4(Ipv4Addr::LOCALHOST), self.port), SocketAddr::new(IpAddr::V6(Ipv6Addr::LOCALHOST), self.port)] {
+                        if c.local_addr().unwrap().is_ipv4() != dst.is_ipv4() {
+                            continue;
+                        }
+                        let _ = c.send_to(&b, dst);
+                        let mut buf = [0u8; 64];
+                        if let Ok((16, _)) = c.recv_from(&mut buf) {
+                            return true;
+                        }
+                    }
+                    if let Ok(c6) = UdpSocket::bind("[::1]:0") {
+                        c6.set_read_timeout(Some(Duration::from_millis(100))).unwrap();
+                        let _ = c6.send_to(&b, SocketAddr::new(IpAddr::V6(Ipv6Addr::LOCALHOST), self.port));
+                        let mut buf = [0u8; 64];
+                        if let Ok((16, _)) = c6.recv_from(&mut buf) {
+                            return true;
+                        }
+                    }
+                }
+            } else {
+                for a in [SocketAddr::new(IpAddr::V4(Ipv4Addr::LOCALHOST), self.port), SocketAddr::new(IpAddr::V6(Ipv6Addr::LOCALHOST), self.port)] {
+                    if TcpStream::connect_timeout(&a, Duration::from_millis(200)).is_ok() {
+                        std::thread::sleep(Duration::from_millis(150)); // all socket workers listen on the same port
+                        return true;
+                    }
+                }
+            }
+            std::thread::sleep(Duration::from_millis(30));
+        }
+        false
+    }
+}
+
+/// `aqv serve`: run a tracker in this process; prints RUN-RETURNED when `run()` returns
+pub fn serve(args: &[String]) -> ! {
+    let kind = args.first().map(|s| s.as_str()).unwrap_or("");
+    let json = args.get(1).map(|s| s.as_str()).unwrap_or("{}");
+    crate::fault::install_from_env();
+    let t0 = Instant::now();
+    let r: Result<(), String> = match kind {
+        "udp" => serde_json::from_str::<aquatic_udp::config::Config>(json).map_err(|e| format!("config: {}", e)).and_then(|c| aquatic_udp::run(c).map_err(|e| format!("{:#}", e))),
+        "http" => serde_json::from_str::<aquatic_http::config::Config>(json).map_err(|e| format!("config: {}", e)).and_then(|c| aquatic_http::run(c).map_err(|e| format!("{:#}", e))),
+        "ws" => serde_json::from_str::<aquatic_ws::config::Config>(json).map_err(|e| format!("config: {}", e)).and_then(|c| aquatic_ws::run(c).map_err(|e| format!("{:#}", e))),
+        _ => Err("unknown tracker kind".into()),
+    };
+    let fault_at = crate::fault::fired_at();
+    println!(
+        "RUN-RETURNED {} after_start_ms={} after_fault_ms={} :: {}",
+        if r.is_ok() { "Ok" } else { "Err" },
+        t0.elapsed().as_millis(),
+        fault_at.map(|t| t.elapsed().as_millis() as i64).unwrap_or(-1),
+        r.err().unwrap_or_default()
+    );
+    std::io::stdout().flush().ok();
+    std::process::exit(3);
+}
+
+// ---------------------------------------------------------------------------------------------
+// Minimal HTTP/1.1 client
+
+pub struct HttpConn {
+    pub stream: TcpStream,
+    pub buf: Vec<u8>,
+}
+
+#[derive(Debug, Clone)]
+pub struct HttpReply {
+    pub status_line: String,
+    pub content_length: Option<usize>,
+    pub content_length_raw: String,
+    pub body: Vec<u8>,
+    pub header_bytes: usize,
+}
+
+#[derive(Debug, Clone, PartialEq)]
+pub enum HttpErr {
+    Closed(usize),
+    Timeout(usize),
+    Malformed(String),
+}
+
+impl HttpConn {
+    pub fn connect(addr: SocketAddr) -> Option<HttpConn> {
+        let s = TcpStream::connect_timeout(&addr, Duration::from_secs(3)).ok()?;
+        s.set_nodelay(true).ok();
+        s.set_read_timeout(Some(Duration::from_secs(5))).ok();
+        Some(HttpConn { stream: s, buf: Vec::new() })
+    }
+
+    pub fn connect_from(local_ip: IpAddr, addr: SocketAddr) -> Option<HttpConn> {
+        let domain = if addr.is_ipv4() { socket2::Domain::IPV4 } else { socket2::Domain::IPV6 };
+        let s = socket2::Socket::new(domain, socket2::Type::STREAM, Some(socket2::Protocol::TCP)).ok()?;
+        s.bind(&SocketAddr::new(local_ip, 0).into()).ok()?;
+        s.connect_timeout(&addr.into(), Duration::from_secs(3)).ok()?;
+        let s: TcpStream = s.into();
+        s.set_nodelay(true).ok();
+        s.set_read_timeout(Some(Duration::from_secs(5))).ok();
+        Some(HttpConn { stream: s, buf: Vec::new() })
+    }
+
+    pub fn send(&mut self, bytes: &[u8]) -> bool {
+        self.stream.write_all(bytes).is_ok()
+    }
+
+    /// Read exactly one response (headers + Content-Length bytes). Surplus bytes stay in the buffer.
+    pub fn read_reply(&mut self) -> Result<HttpReply, HttpErr> {
+        loop {
+            if let Some(pos) = find(&self.buf, b"\r\n\r\n") {
+                let head = String::from_utf8_lossy(&self.buf[..pos]).to_string();
+                let mut lines = head.split("\r\n");
+                let status_line = lines.next().unwrap_or("").to_string();
+                let mut cl_raw = String::new();
+                for l in lines {
+                    if let Some(v) = l.strip_prefix("Content-Length:") {
+                        cl_raw = v.to_string();
+                    }
+                }
+                let cl: Option<usize> = cl_raw.trim().parse().ok();
+                let body_start = pos + 4;
+                match cl {
+                    None => return Err(HttpErr::Malformed(format!("Content-Length {:?} does not parse", cl_raw))),
+                    Some(n) => {
+                        while self.buf.len() < body_start + n {
+                            let mut tmp = [0u8; 8192];
+                            match self.stream.read(&mut tmp) {
+                                Ok(0) => return Err(HttpErr::Closed(self.buf.len())),
+                                Ok(k) => self.buf.extend_from_slice(&tmp[..k]),
+                                Err(_) => return Err(HttpErr::Timeout(self.buf.len())),
+                            }
+                        }
+                        let body = self.buf[body_start..body_start + n].to_vec();
+                        self.buf.drain(..body_start + n);
+                        return Ok(HttpReply { status_line, content_length: cl, content_length_raw: cl_raw, body, header_bytes: body_start });
+                    }
+                }
+            }
+            let mut tmp = [0u8; 8192];
+            match self.stream.read(&mut tmp) {
+                Ok(0) => return Err(HttpErr::Closed(self.buf.len())),
+                Ok(k) => self.buf.extend_from_slice(&tmp[..k]),
+                Err(_) => return Err(HttpErr::Timeout(self.buf.len())),
+            }
+        }
+    }
+
+    /// After the last request: anything more arriving within `ms`?
+    pub fn drain(&mut self, ms: u64) -> Vec<u8> {
+        self.stream.set_read_timeout(Some(Duration::from_millis(ms))).ok();
+        let mut tmp = [0u8; 4096];
+        let mut extra = self.buf.clone();
+        while let Ok(k) = self.stream.read(&mut tmp) {
+            if k == 0 {
+                break;
+            }
+            extra.extend_from_slice(&tmp[..k]);
+        }
+        self.stream.set_read_timeout(Some(Duration::from_secs(5))).ok();
+        extra
+    }
+}
+
+pub fn find(h: &[u8], n: &[u8]) -> Option<usize> {
+    h.windows(n.len()).position(|w| w == n)
+}
+
+pub fn http_announce_path(hash: &[u8; 20], peer_id: &[u8; 20], port: u16, left: u64, event: &str, numwant: Option<usize>, pad: usize) -> String {
+    let enc = |b: &[u8; 20]| b.iter().map(|x| format!("%{:02x}", x)).collect::<String>();
+    let mut s = format!("/announce?info_hash={}&peer_id={}&port={}&uploaded=0&downloaded=0&left={}&compact=1", enc(hash), enc(peer_id), port, left);
+    if !event.is_empty() {
+        s.push_str(&format!("&event={}", event));
+    }
+    if let Some(n) = numwant {
+        s.push_str(&format!("&numwant={}", n));
+    }
+    if pad > 0 {
+        s.push_str(&format!("&pad={}", "p".repeat(pad)));
+    }
+    s
+}
+
+pub fn http_get(path: &str, extra_headers: &str) -> Vec<u8> {
+    format!("GET {} HTTP/1.1\r\nHost: t\r\n{}\r\n", path, extra_headers).into_bytes()
+}
